@@ -9,7 +9,9 @@ import (
 	"encoding/json"
 	"fmt"
 	"os"
+	"runtime/debug"
 	"sort"
+	"strings"
 )
 
 type cmdFn func(args []string) (any, error)
@@ -33,7 +35,7 @@ func main() {
 		fmt.Fprintln(os.Stderr, "unknown command", os.Args[1])
 		os.Exit(3)
 	}
-	res, err := f(os.Args[2:])
+	res, err := guarded(f, os.Args[2:])
 	if err != nil {
 		fmt.Fprintln(os.Stderr, "vh:", err)
 		os.Exit(4)
@@ -43,6 +45,55 @@ func main() {
 		fmt.Fprintln(os.Stderr, "vh:", err)
 		os.Exit(4)
 	}
+}
+
+// guarded runs a subcommand. A panic that starts inside the code under test (the first frame below runtime.gopanic belongs to
+// github.com/GuanceCloud/platypus) while a specified behaviour is being replayed is a disagreement with the specification, not a
+// broken harness: it is reported as one mismatch (with the vector being replayed) and the rest of the stage is not run. A panic that
+// starts in the harness itself is re-raised (exit 2: broken).
+func guarded(f cmdFn, args []string) (res any, err error) {
+	defer func() {
+		r := recover()
+		if r == nil {
+			return
+		}
+		st := string(debug.Stack())
+		top := ""
+		if i := strings.Index(st, "panic("); i >= 0 {
+			rest := st[i:]
+			if nl := strings.Index(rest, "\n"); nl >= 0 {
+				if nl2 := strings.Index(rest[nl+1:], "\n"); nl2 >= 0 { // skip the file:line of the panic frame
+					rest = rest[nl+1+nl2+1:]
+				}
+			}
+			for _, ln := range strings.Split(rest, "\n") {
+				if strings.HasPrefix(ln, "\t") || ln == "" {
+					continue
+				}
+				if strings.HasPrefix(ln, "runtime.") || strings.HasPrefix(ln, "reflect.") || strings.HasPrefix(ln, "internal/") {
+					continue // the panic was raised by a runtime helper called from the frame below
+				}
+				if strings.HasPrefix(ln, "github.com/GuanceCloud/platypus/") {
+					top = ln
+					if p := strings.LastIndex(top, "("); p > 0 {
+						top = top[:p]
+					}
+				}
+				break
+			}
+		}
+		if top == "" {
+			panic(r)
+		}
+		if len(st) > 6000 {
+			st = st[:6000]
+		}
+		res = &Summary{Evaluations: 1, Mismatches: []Mismatch{{Sig: "panic:" + top, Detail: map[string]any{"panic": fmt.Sprint(r), "stack": st,
+			"note": "the code under test panicked while a specified behaviour was replayed; the rest of this stage was not run"}, Vec: curVec}},
+			Samples: []any{map[string]any{"aborted_by_panic_in": top}}, Extra: map[string]any{"aborted_by_panic": true}}
+		err = nil
+	}()
+	return f(args)
 }
 
 // Summary is the common shape of a replay result.
